@@ -44,6 +44,42 @@ pub fn run(rec: &mut Recorder, w: &mut World, tier: &str, seed: u64) {
                 if rng.chance(1, 8) && !rules.is_empty() { let i = rng.below(rules.len()); if rng.chance(1, 2) { rules[i].pop(); } else { rules[i].push("extra".to_string()); } rec.count("policy:malformed-rule"); }
                 let links = gen_links(&mut rng, k);
                 rec.begin();
+                let simple = !typed && k.name != "eval" && PLAIN_KINDS.contains(&k.name) && ks.iter().any(|k0| std::ptr::eq(k0, k_plain));
+                // (B) one enforcer holding the rules under p; the same rules are then added one by one under p<k> (the model keeps
+                //     both section sets, and both policy types may well hold the same rules)
+                if it % 6 == 4 && k.name != "eval" {
+                    if new_enforcer(rec, w, &m, "memory", &lines_of("p", &rules, &k.g, &links), "", false) != "ok" { rec.count("new:failed"); continue; }
+                    let plain = rec.exec(w, &format!("e.enfs\t{}", reqf));
+                    for r in &rules { rec.exec(w, &MOp::Add("p".into(), format!("p{}", sfx), r.clone()).line()); }
+                    let ctx = rec.exec(w, &format!("e.enfcs\t{}\t{}", sfx, reqf));
+                    if plain != ctx {
+                        let i = plain.bytes().zip(ctx.bytes()).position(|(x, y)| x != y).unwrap_or(0);
+                        rec.fail("context-differs", format!("[{} {} suffix {}; rules under p, then added one by one under p{}] request {:?}: plain {} context {} (rules {:?})", k.name, ename, sfx, sfx, reqs[i], &plain[i..i + 1], &ctx[i..i + 1], rules));
+                    }
+                    rec.count("setup:rules-added-under-both-types");
+                    rec.nontrivial_case(&format!("B|{}|{}|{}|{:?}|{:?}", k.name, ename, sfx, rules, links));
+                    continue;
+                }
+                // (C) both sides filled by a filtered load from a file / string / memory adapter (the policy filter names the first
+                //     value of a stored rule): the filter applies to p<k> lines as it does to p lines
+                if it % 6 == 5 && simple && !rules.is_empty() {
+                    let kind = *rng.pick(&["string", "file", "memory"]);
+                    let fp = vec![rules[rng.below(rules.len())][0].clone()];
+                    let mut outs = vec![];
+                    for pk in ["p".to_string(), format!("p{}", sfx)] {
+                        let lines = lines_of(&pk, &rules, &k.g, &links);
+                        let (mem, text) = crate::c12::content(kind, &lines, &mut rng);
+                        if new_enforcer(rec, w, &m, kind, &mem, &text, false) != "ok" { rec.count("new:failed"); outs.push("new failed".to_string()); continue; }
+                        rec.exec(w, &format!("e.loadf\t{}\t{}", enc_list(&fp), enc_list(&Vec::<String>::new())));
+                        outs.push(if pk == "p" { rec.exec(w, &format!("e.enfs\t{}", reqf)) } else { rec.exec(w, &format!("e.enfcs\t{}\t{}", sfx, reqf)) });
+                    }
+                    if outs[0] != outs[1] {
+                        rec.fail("context-differs", format!("[{} {} suffix {}; both sides filled by load_filtered_policy(p: {:?}) from a {} adapter] plain {} context {} (rules {:?})", k.name, ename, sfx, fp, kind, outs[0], outs[1], rules));
+                    }
+                    rec.count(&format!("setup:filtered-load:{}", kind));
+                    rec.nontrivial_case(&format!("C|{}|{}|{}|{:?}|{:?}|{:?}", k.name, ename, sfx, fp, rules, links));
+                    continue;
+                }
                 // every fourth comparison on a CachedEnforcer (both sides): what a caller observes must not depend on it
                 let cached = it % 4 == 3;
                 if cached { rec.exec(w, "e.cached\ttrue"); rec.count("enforcer:cached"); }
